@@ -67,8 +67,8 @@ def axes_for(n):
 
 def shards(tier):
     out = []
-    for seq in describe(tier)['bases']:
-        for sh in space.dev_shards(axes_for(len(seq)), 3):
+    for seq in describe(tier)['bases'] + [c01.LONG_BASE]:     # the long base (two-digit positions) at deviation <= 2
+        for sh in space.dev_shards(axes_for(len(seq)), 3 if seq != c01.LONG_BASE else 2):
             sh['seq'] = seq
             out.append(sh)
     out += [{'kind': 'values', 'first': i} for i in range(len(VALUE_TEXTS))]
